@@ -122,6 +122,11 @@ def check_pair(acc, pendulum, za, ia, zb, ib, clone_b=False, native=True):
         forms += [("sub/subclass-minus-base", lambda: sb - a, diff), ("sub/base-minus-subclass", lambda: b - sa, diff),
                   ("sub/subclass-minus-sibling", lambda: tb - sa, diff), ("diff/subclass", lambda: sa.diff(b, False), diff),
                   ("sub/subclass-minus-subclass", lambda: sb - sa, diff)]
+    if za is None and zb is None:
+        # naive endpoints handed over as NATIVE naive datetimes, on either side of the operator
+        nna, nnb = dt_.datetime(*obs.fields(a)), dt_.datetime(*obs.fields(b))
+        # (the operators only: diff() / Interval() read a naive NATIVE value as UTC by design, see C06)
+        forms += [("sub/pendulum-minus-native-naive", lambda: b - nna, diff), ("sub/native-naive-minus-pendulum", lambda: nnb - a, diff)]
     if native and za is not None:
         # endpoints that carry a stdlib tzinfo (results of astimezone(<stdlib tz>)): same instants, same length
         try:
